@@ -459,8 +459,30 @@ func genC11(o *out, r *rng, thorough bool) {
 			bad.y = 91 * 16
 		}
 		pos := r.pick([]int{0, k - 1, r.intn(k)})
-		if r.coin(0.8) {
+		if r.coin(0.6) {
 			pts[pos] = bad
+		} else if r.coin(0.7) {
+			// positions exactly ON the limits are valid
+			pts[pos] = ipt{r.pick([]int{-180, 180, 0, 17}) * 16, r.pick([]int{90, -90, 90, 3}) * 16}
+		}
+		if i%7 == 3 {
+			// rectangles and point collections touching the limits exactly; closed rings of three positions [A,B,A]
+			id := o.newID("O")
+			x0, y0 := r.rangeI(-180, 170), r.rangeI(-90, 80)
+			switch r.intn(4) {
+			case 0:
+				o.op("onew %s rect %d %d %d %d", id, x0*16, y0*16, r.pick([]int{180, x0 + 5}) *16, r.pick([]int{90, 90, y0 + 5})*16)
+			case 1:
+				o.op("onew %s mp 2 %d %d %d %d", id, x0*16, y0*16, r.pick([]int{180, -180, 10})*16, r.pick([]int{90, -90})*16)
+			case 2:
+				o.op("onew %s polygon 0 0 1 3 %d %d %d %d %d %d", id, x0*16, y0*16, (x0+7)*16, (y0+4)*16, x0*16, y0*16)
+			default:
+				o.op("onew %s polygon 0 0 2 %s 3 %d %d %d %d %d %d", id, ptsStr(rectRing(-160, -160, 160, 160)), 16, 32, 48, 80, 16, 32)
+			}
+			o.op("oattrs %s", id)
+			gid := o.newID("O")
+			o.op("onew %s gc 1 %s", gid, id)
+			o.op("oattrs %s", gid)
 		}
 		closed := r.coin(0.5)
 		if closed {
@@ -623,6 +645,28 @@ func genC08(o *out, r *rng, thorough bool) {
 		if r.coin(0.5) {
 			bad := strings.Replace(text, "[", "[2000,95,", 1)
 			emitParse(o, "oparserv", o.newID("V"), optsStr(64, 64, 2, true, r.coin(0.5), false, r.coin(0.5)), bad)
+		}
+		// perfect rectangles (replaced by a Rect under AllowRects), sometimes out of range, under
+		// RequireValid combined with every representation option, bare and nested
+		if i%4 == 3 {
+			x0, y0 := r.rangeI(-170, 160), r.rangeI(-80, 70)
+			x1, y1 := x0+r.rangeI(1, 20), y0+r.rangeI(1, 15)
+			switch r.intn(4) {
+			case 0:
+				y1 = 95
+			case 1:
+				x1 = 185
+			}
+			rp := fmt.Sprintf(`{"type":"Polygon","coordinates":[[[%d,%d],[%d,%d],[%d,%d],[%d,%d],[%d,%d]]]}`, x0, y0, x1, y0, x1, y1, x0, y1, x0, y0)
+			switch r.intn(4) {
+			case 1:
+				rp = `{"type":"Feature","geometry":` + rp + `,"properties":{}}`
+			case 2:
+				rp = `{"type":"GeometryCollection","geometries":[` + rp + `]}`
+			case 3:
+				rp = `{"type":"FeatureCollection","features":[{"type":"Feature","geometry":` + rp + `,"properties":null}]}`
+			}
+			emitParse(o, "oparserv", o.newID("V"), optsStr(r.pick([]int{0, 1, 64}), 64, 2, true, r.coin(0.5), false, r.coin(0.8)), rp)
 		}
 		// points with a null (= NaN) or out-of-range ordinate at any place of a MultiPoint, bare or nested
 		if i%4 == 1 {
